@@ -1,33 +1,31 @@
 (** * C09: <, <=, >, >= follow ECMAScript relational comparison, incl. between.
-    Statements only; proofs are in Proofs/Compare.v.  Hypothesis: the scanner lemma (Proofs/Scan.v). *)
+    Statements only; proofs are in Proofs/Compare.v.  The string-to-number scanner lemma is Proofs/Scan.v (str_to_number_spec). *)
 From Coq Require Import List Bool.
-From JL Require Import Base.Json Base.Dec2Flt Base.Monad Model.JsOp Model.Ops Spec.Specs Spec.OpSpecs Proofs.Compare.
+From JL Require Import Base.Json Base.Dec2Flt Base.Monad Model.JsOp Model.Ops Spec.Specs Spec.OpSpecs Proofs.Compare Proofs.Scan.
 From Coq Require Import String NArith ZArith.
 Local Open Scope string_scope.
 Import ListNotations.
 
-Theorem C09_relational_partial :
-  (forall s, str_to_number s = es_str_to_number s) ->
+Theorem C09_relational :
   forall a b,
     abstract_lt a b = es_lt a b /\ abstract_lte a b = es_le a b /\
     abstract_gt a b = es_lt b a /\ abstract_gte a b = es_le b a.
 Proof.
-  intros H a b. repeat split.
+  intros a b. pose proof str_to_number_spec as H. repeat split.
   - apply abstract_lt_spec, H. - apply abstract_lte_spec, H.
   - apply abstract_gt_spec, H. - apply abstract_gte_spec, H.
 Qed.
-Print Assumptions C09_relational_partial.
+Print Assumptions C09_relational.
 
 (** a > b is b < a and a >= b is b <= a: the duplicated code paths agree *)
-Theorem C09_mirrored_partial :
-  (forall s, str_to_number s = es_str_to_number s) ->
+Theorem C09_mirrored :
   forall a b, abstract_gt a b = abstract_lt b a /\ abstract_gte a b = abstract_lte b a.
 Proof.
-  intros H a b. split.
+  intros a b. pose proof str_to_number_spec as H. split.
   - rewrite (abstract_gt_spec H), (abstract_lt_spec H). reflexivity.
   - reflexivity.
 Qed.
-Print Assumptions C09_mirrored_partial.
+Print Assumptions C09_mirrored.
 
 (** two operands: the comparison; three operands: the conjunction of the adjacent comparisons *)
 Theorem C09_between :
